@@ -148,7 +148,9 @@ func genLogStreams(rt *rapid.T, w Win) []Strm {
 	}
 	out := []Strm{s0}
 
-	lbl := func(sid string) []gen.Label { return []gen.Label{gen.L("app", "a"), gen.L("env", "x"), gen.L("sid", sid)} }
+	lbl := func(sid string) []gen.Label {
+		return []gen.Label{gen.L("app", "a"), gen.L("env", "x"), gen.L("sid", sid)}
+	}
 	if some("elo") {
 		s := Strm{Tag: "elo", Labels: lbl("elo")}
 		if ts := used.near(w.From+r64(rt, 0, min64(w.To-w.From-1, 5*nsSec), "eloOff"), 1, w.From, w.To-1); ts > 0 {
